@@ -26,12 +26,10 @@ def taskName (s : State) : TaskId → String
   | .a i =>
     match s.aws[i]? with
     | some a =>
-      -- reader tasks keep their number when their reader is disposed
-      let cls (k : AwKind) : Nat := match k with | .awaiter => 0 | .reader => 1 | .reader0 => 1 | .tick => 2 | .saw => 3
+      let cls (k : AwKind) : Nat := match k with | .awaiter => 0 | .reader => 1 | .tick => 2 | .saw => 3
       let k := ((s.aws.take i).filter fun b => cls b.kind == cls a.kind).length
       match a.kind with
       | .reader => "r" ++ toString k
-      | .reader0 => "r" ++ toString k
       | .awaiter => "a" ++ toString k
       | .saw => "s" ++ toString k
       | .tick => "t" ++ toString (k + 1)
